@@ -107,11 +107,46 @@ def c01_classify(c, c2):
     return out
 
 
+def c01_hypotheses(k):
+    """the hypotheses of C01_code_bytes / C01_operand_tables, evaluated on a real code object: the bytecode does not end
+    inside an instruction, at most three EXTENDED_ARG prefixes, instructions other than jumps in the minimal width, jump
+    targets are instruction starts, distinct parameter / cell / free variable names"""
+    code = k.co_code
+    if len(code) % 2:
+        return False
+    run, arg, first = 0, 0, 0
+    starts, ins = set(), []
+    for i in range(0, len(code), 2):
+        arg = arg << 8 | code[i + 1]
+        if code[i] == dis.EXTENDED_ARG:
+            run += 1
+            if run > 3:
+                return False
+        else:
+            starts.add(first); ins.append((code[i], arg, run + 1, i + 2)); run, arg, first = 0, 0, i + 2
+    if run:
+        return False
+    mult = 2 if O.V310 else 1
+    for op, a, nargs, nxt in ins:
+        if op in dis.hasjabs:
+            if a * mult not in starts: return False
+        elif op in dis.hasjrel:
+            if nxt + a * mult not in starts: return False
+        elif nargs != (1 if a <= 0xff else 2 if a <= 0xffff else 3 if a <= 0xffffff else 4):
+            return False
+    npar = k.co_argcount + k.co_kwonlyargcount + bool(k.co_flags & 4) + bool(k.co_flags & 8)
+    if npar > len(k.co_varnames) or len(set(k.co_varnames[:npar])) != npar:
+        return False
+    return len(set(k.co_cellvars)) == len(k.co_cellvars) and len(set(k.co_freevars)) == len(k.co_freevars)
+
+
 def c01_one(w, inp, c):
     d, e = try_(CodeData.from_code, c)
     m_decode(w, c, d, e)
     w.stats['programs'] += 1
     n = sum(1 for _ in corpus.all_code(c))
+    for k in corpus.all_code(c):
+        w.stats['c01_theorem_hypotheses_hold' if c01_hypotheses(k) else 'c01_theorem_hypotheses_fail'] += 1
     w.stats['code_objects'] += n
     w.seen(ser.s_code(c))
     if e is not None:
